@@ -1,5 +1,14 @@
 package main
 
+import (
+	"fmt"
+	"math/rand"
+	"time"
+
+	"verif/harness/internal/btconc"
+	"verif/harness/internal/tlc"
+)
+
 func init() {
 	checks["C12"] = checkC12
 	checks["C14"] = checkC14
@@ -49,4 +58,60 @@ func checkC16(c *Ctx) {
 		Invariants: []string{"InvCanonical", "InvSeqForm"}, Properties: []string{"PassLaw"},
 		Gen: genGcProgram, NRandQ: 150, NRandT: 3000,
 	})
+	checkC16Races(c)
+}
+
+// the clause about writes acknowledged while a pass is running: a pass over 230 rows (two lock reversals) with
+// concurrent writers, scheduled through the hook gates
+func checkC16Races(c *Ctx) {
+	c.rule += "; races: a forced pass over a 230-row table (the pass releases and re-takes the table lock every 100 rows) with concurrent increments, two-mutation writes and row deletes on rows before / between / after the lock reversals, scheduled by behaviours of the BtConc model (mixes gc, gcdel) through the hook gates and free-running; each recorded run validated by TLC (BtConcTrace: the pass collects each row as it is when the pass reaches it; acknowledged writes survive; deleted rows stay deleted; final read-back)"
+	r := rand.New(rand.NewSource(c.Seed + 16))
+	c.modelCheckConc([]string{"gc", "gcdel"}, nil)
+	// the model itself shows what goes wrong when the pass writes back its start-of-pass copy
+	stale := concModelCfg("gc", false, true, "Spec", concInvs, nil, "")
+	if res, err := tlc.Run(tlc.Options{Module: "MC_BtConc", Cfg: stale.TextSubst(), Workers: 4, Timeout: 10 * time.Minute}); err == nil {
+		c.Extra("model_with_stale_writeback_violates", res.InvViolated)
+	}
+	nsim, keep := 400, 20
+	if !c.Quick() {
+		nsim, keep = 20000, 1200
+	}
+	var scheds []concSched
+	for _, mix := range []string{"gc", "gcdel"} {
+		ss := c.schedulesConc(mix, false, false, nsim, keep, r)
+		c.Extra("race_schedules_"+mix, len(ss))
+		scheds = append(scheds, ss...)
+	}
+	engines := []string{"mem", "disk", "btree"}
+	concrete := map[int]int{1: 40, 2: 150, 3: 215}
+	var jobs []concJob
+	for n, s := range scheds {
+		kinds, rows := mixKinds[s.Mix], mixRows[s.Mix]
+		var procs []btconc.Proc
+		for i, k := range kinds {
+			row := concrete[rows[i]]
+			if r.Intn(3) == 0 {
+				row = 1 + r.Intn(230)
+			}
+			procs = append(procs, btconc.Proc{Name: procName(i + 1), Op: concOp(k, rowKey(row), procName(i+1))})
+		}
+		var sched []string
+		for _, p := range s.Steps {
+			sched = append(sched, procName(p))
+		}
+		jobs = append(jobs, concJob{engine: engines[n%3], setup: concSetup(230, true, 2), procs: procs, sched: sched, label: fmt.Sprintf("GC pass, mix %s, schedule %v", s.Mix, s.Steps)})
+	}
+	nStress := 6
+	if !c.Quick() {
+		nStress = 150
+	}
+	kinds := []string{"incr", "mut2", "del", "incr", "mut2", "cas"}
+	for i := 0; i < nStress; i++ {
+		procs := []btconc.Proc{{Name: "p1", Op: concOp("gc", nil, "p1")}}
+		for p := 0; p < 6; p++ {
+			procs = append(procs, btconc.Proc{Name: procName(p + 2), Op: concOp(kinds[(p+i)%len(kinds)], rowKey(1+r.Intn(230)), procName(p+2))})
+		}
+		jobs = append(jobs, concJob{engine: engines[i%3], setup: concSetup(230, true, 2), procs: procs, opt: btconc.Options{Free: true}, label: fmt.Sprintf("free-running GC pass + 6 writers %d", i)})
+	}
+	c.runConc("C16", jobs)
 }
